@@ -75,6 +75,31 @@ check('C03', 'llparser',
       'bound parsed under a step budget counted through the parser debug hooks (no wall-clock verdicts).',
       _LLNOTE, 'DESIGN.md section 4, C03')
 
+ENGINES['color'] = ('specs/color', ['C08', 'C09'],
+                    'CHText.tla (A-spec lifted str operations + I-spec chunk list, refinement invariants, history '
+                    'emission), SGR.tla / SGRCases.tla / SGRJudge.tla (terminal model, configuration builder, trace '
+                    'acceptor); drivers harness/drivers/c08.py, c09.py, harness/sgr.py')
+check('C08', 'color',
+      'TLA+ spec with abstract (sequence of coloured characters) and implementation-shaped (chunk list) state stepped '
+      'together; TLC checks refinement over the register state space; TLC-generated operation histories replayed on '
+      'real CHText objects with the abstract state compared after every operation',
+      'TLC proves flatten(chunks) = abstract text, the representation invariant and canonicity (equal texts <=> equal '
+      'chunk lists) for every reachable pair of registers up to the text bound; every history of 2 operations (all '
+      'operands, index/slice bounds incl. negative/out-of-range/None, fixed_len, format) and seeded TLC simulations '
+      'of 7 operations are replayed on real objects: visible text, colours, len, plain_text, str(), ==.',
+      'Trusted: TLC, the small SGR interpreter harness/sgr.py, operand pool as listed in the evidence assumptions.',
+      'DESIGN.md section 4, C08')
+check('C09', 'color',
+      'TLA+ terminal model fed item by item with the real output (trace validation by TLC); configurations and their '
+      'requested terminal state come from a TLC-enumerated builder',
+      'All foreground and all background specifications (names, -1..256, the 8^3 tuples around the cube, g-1..g25), '
+      'a representative cross product with all 32 effect combinations, no_color, text and bytes formatter, plus '
+      'multi-chunk texts: every str() is tokenised independently of the package and accepted or rejected by the TLC '
+      'acceptor (each character in exactly the requested state, default state at the end, no stray escape, '
+      'strip_colors == plain text, bytes == text); invalid values must raise ValueError.',
+      'Trusted: TLC, the tokeniser in harness/sgr.py. Lists/floats as colour values are outside the documented domain.',
+      'DESIGN.md section 4, C09')
+
 ALL = ['C%02d' % i for i in range(1, 21)]
 
 
